@@ -137,6 +137,8 @@ def w_join_config(job):
                 for ae in aes:
                     for am in (False, True):
                         for (lo, ro) in ATTRS:
+                            lo = None if lo is None else [''.join(list(x)) for x in lo]     # distinct string objects
+                            ro = None if ro is None else [''.join(list(x)) for x in ro]
                             for (lp, rp) in PREFIXES:
                                 for score in (True, False):
                                   for nj in job['n_jobs']:
@@ -317,7 +319,8 @@ def w_filter_config(job):
                         for sp in ((False, True) if nj == 1 else (False,)):
                             cfg = '%s t=%r op=%s allow_empty=%s allow_missing=%s l_out=%s r_out=%s prefixes=%r n_jobs=%d ' \
                                   'show_progress=%s' % (meas, t, op, ae, am, lo, ro, (lp, rp), nj, sp)
-                            f = make_filter(name, make_tokenizer(['ws', True]), meas, t, ae, am, op)
+                            spelled = meas if variant == 0 else (meas.lower() if nj == 1 else meas.capitalize())
+                            f = make_filter(name, make_tokenizer(['ws', True]), spelled, t, ae, am, op)
                             sched.CTL.reset()
                             with quiet(sp):
                                 if name == 'Overlap':
@@ -384,6 +387,11 @@ def w_filter_config(job):
                                 expc = [tuple(cell(v) for v in row) for row in out.values.tolist()
                                         if not lib(f2.filter_pair, lvals[lpos[cell(row[1])]], rvals[rpos[cell(row[2])]])]
                                 gotc = [tuple(cell(v) for v in row) for row in oc.values.tolist()]
+                                keptc = {(lpos[r[1]], rpos[r[2]]) for r in gotc}
+                                lostc = [(i, j) for (i, j) in must if (i, j) in seen and (i, j) not in keptc]
+                                if lostc and name != 'Overlap':
+                                    report('C04', cfg, 'filter_candset on the filter_tables output drops the qualifying pair '
+                                           '(%r, %r)' % (lvals[lostc[0][0]], rvals[lostc[0][1]]))
                                 if gotc != expc:
                                     report('C06', cfg, 'filter_candset on the filter_tables output keeps %d rows, row-wise '
                                            'filter_pair keeps %d (first difference: %r)' % (
